@@ -89,3 +89,32 @@ def iff(a, b):
 
 def implies(a, b):
     return b_or(b_not(a), b)
+
+
+def send_script(E, rt, m, ret_of=None):
+    """scripted outcomes of the nested sends on this path (for the native replay runtime)"""
+    out = []
+    for i, s in enumerate(rt.sends):
+        if s.ok:
+            r = ret_of(i, s) if ret_of else None
+            out.append({'ok': True, 'ret': r})
+        elif s.syscall_err:
+            name = s.syscall_err if s.syscall_err not in ('syserr', 'in_tx', 'negative value') else 'NotFound'
+            out.append({'syserr': name})
+        else:
+            out.append({'ok': False, 'exit_code': ev(m, s.exit_code) if s.exit_code is not None else 1})
+    return out
+
+
+def sends_pred(E, rt, m):
+    return [{'to': ev(m, s.to.key), 'method': ev(m, zv(s.method)), 'value': str(ev(m, s.value))} for s in rt.sends]
+
+
+def result_pred(E, res, m):
+    if res.kind != 'return':
+        return 'panic'
+    v = res.value
+    if is_ok(v):
+        return 'Ok'
+    c = err_code(E, v)
+    return 'Err(%d)' % ev(m, c)
